@@ -103,3 +103,31 @@ func VerifC17Two() {
 	symCover("applied2")
 	symAssert(d.String() == cur, "document equals reference after two edits")
 }
+
+// VerifC17Notification: a didChange notification as the server applies it - a list of
+// content changes through DocumentContents.Apply: an optional full replacement (nil range,
+// any text including the empty one) followed by an incremental edit.
+func VerifC17Notification() {
+	text := symText("doc", symParam("DOC"))
+	dc := newDocumentContents(nil)
+	dc.Set("u", NewDocument(nil, text))
+	cur := text
+	var changes []lsp.TextDocumentContentChangeEvent
+	if symBool("full") {
+		with := symText("full_text", symParam("DOC"))
+		changes = append(changes, lsp.TextDocumentContentChangeEvent{Range: nil, Text: with})
+		cur = with
+	}
+	with := symText("with", symParam("WITH"))
+	sl, sc, el, ec := symUint32("sl"), symUint32("sc"), symUint32("el"), symUint32("ec")
+	symAssume(sl < el || (sl == el && sc <= ec))
+	changes = append(changes, lsp.TextDocumentContentChangeEvent{
+		Range: &lsp.Range{Start: lsp.Position{Line: sl, Character: sc}, End: lsp.Position{Line: el, Character: ec}}, Text: with})
+	cur = refSplice(cur, sl, sc, el, ec, with)
+	d, err := dc.Apply("u", changes)
+	symCover("notified")
+	symAssert(err == nil, "a known document accepts changes")
+	if err == nil {
+		symAssert(d.String() == cur, "after a notification (optional full replacement, then an edit) the copy equals the editor's text")
+	}
+}
